@@ -333,7 +333,7 @@ example : printList 1 none (wordOpd ['a'])
     = [' ', 'a', ' ', ' ', ' ', 'A', 'N', 'D', ' ', 'b', ' ', 'O', 'R', ' ', ' ', '-', 'c', ' '] := by decide
 example : PlainWord ['b'] ∧ PlainWord ['c'] := ⟨⟨by simp, by decide, by decide⟩, ⟨by simp, by decide, by decide⟩⟩
 
-/-- **print/parse for the nested fragment** (`WFOpd`: plain words, double-quoted phrases without escapes — any characters but `"` and `\`, optionally followed by a slop `~digits` (below 2^32) or the prefix star —, double-quoted phrases of ANY characters printed with `\"` and `\\` escapes (`escQuoted`), either of them with a field prefix `name:` (the name a plain word), bracketed ranges `[a TO b]`, `{a TO b}`, `[a TO b}`, `{a TO b]` with bounds of letters and digits (also with a field prefix), sets `IN [a b c]` of plain words with any blanks after `IN`, after `[` and between the elements (also with a field prefix), `NOT x` of a well-formed operand, and parenthesised operand lists
+/-- **print/parse for the nested fragment** (`WFOpd`: plain words, double-quoted phrases without escapes — any characters but `"` and `\`, optionally followed by a slop `~digits` (below 2^32) or the prefix star —, double-quoted phrases of ANY characters printed with `\"` and `\\` escapes (`escQuoted`), either of them with a field prefix `name:` (the name a plain word), bracketed ranges `[a TO b]`, `{a TO b}`, `[a TO b}`, `{a TO b]` with bounds of letters and digits (also with a field prefix), elastic ranges `>=a`, `<=a`, `<a`, `>a` (also with a field prefix), `*` and `name:*`, sets `IN [a b c]` of plain words with any blanks after `IN`, after `[` and between the elements (also with a field prefix), `NOT x` of a well-formed operand, and parenthesised operand lists
     of well-formed operands, to any depth, each list with `+`/`-` markers, `AND `/`OR ` and any
     layout): the strict parser reads the printed text as the tree the printer's structure denotes —
     at every level the fold (`strictAst`, see `C16_listTree_is_fold`) of the operands' trees —
@@ -406,6 +406,14 @@ example : (phraseEscOpd ['a', '"', '\\'] .none).text = ['"', 'a', '\\', '"', '\\
     ∧ (phraseEscOpd ['a', '"', '\\'] .none).leaf = .leaf (.literal none ['a', '"', '\\'] .double 0 false)
     ∧ WFOpd (phraseEscOpd ['a', '"', '\\'] .none) :=
   ⟨by decide, rfl, .phraseEsc _ _ trivial⟩
+
+/-- `t:>=5`, `*` and `t:*` are well-formed operands -/
+example : (fieldElasticOpd ['t'] 0 ['5']).text = ['t', ':', '>', '=', '5']
+    ∧ (fieldElasticOpd ['t'] 0 ['5']).leaf = .leaf (.range (some ['t']) (.incl ['5']) .unbounded)
+    ∧ WFOpd (fieldElasticOpd ['t'] 0 ['5']) ∧ WFOpd allOpd ∧ WFOpd (existsOpd ['t'])
+    ∧ (existsOpd ['t']).leaf = .leaf (.exists ['t']) :=
+  ⟨by decide, rfl, .fieldElastic _ _ _ ⟨by simp, by decide, by decide⟩ ⟨by simp, by decide⟩, .all,
+    .existsField _ ⟨by simp, by decide, by decide⟩, rfl⟩
 
 /-- `NOT  t:a` is a well-formed operand, read as the clause `(-t:a)` -/
 example : (notOpd 1 (fieldWordOpd ['t'] ['a'])).text = ['N', 'O', 'T', ' ', ' ', 't', ':', 'a']
